@@ -241,10 +241,12 @@ Theorem wait_for_index_two_sections_refuted :
 Proof. exists lost_wakeup_trace, 1. exact (proj1 two_sections_lose_wakeup). Qed.
 Print Assumptions wait_for_index_two_sections_refuted.
 
-(* (f) lazy allocation of the tsm1 cache store (Cache.init): for EVERY schedule of any number
-   of threads over the init / fetch / write / acknowledge sections, every acknowledged value
-   is in the store a reader sees; and a step never takes a visible value away (the store,
-   once installed, is not replaced) *)
+(* (f) the lazily allocated store of the tsm1 cache (Cache.init), its release on idle shards
+   (Store.monitorShards: IsIdle, then Engine.Free) and the engine lock around writes: for EVERY
+   schedule of any number of writer and monitor threads over the lock / init / fetch / write /
+   acknowledge and idle-check / release sections, every acknowledged value is in the store a
+   reader sees; and a step never takes a visible value away (a ring is replaced only while it
+   is empty) *)
 Theorem cache_init_no_lost_write :
   forall (ths : list (list cact)) (sched : list nat),
     let s := run cexec sched ths cinit in
@@ -268,13 +270,28 @@ Theorem cache_init_store_before_flag : c19_cache_init_store_before_flag = true.
 Proof. reflexivity. Qed.
 Print Assumptions cache_init_store_before_flag.
 
-(* the pinned code set the flag first (CompareAndSwap) and installed the ring afterwards: a
+(* ... and about a release that holds the exclusive engine lock and looks at the cache size
+   again: re-derived from tsdb/engine/tsm1/*.go on every run (every call of e.Cache.Free is in
+   the size-guarded helper, every call of the helper under e.mu.Lock) *)
+Theorem engine_free_excludes_writers : c19_engine_free_excludes_writers = true.
+Proof. reflexivity. Qed.
+Print Assumptions engine_free_excludes_writers.
+
+(* the pinned init set the flag first (CompareAndSwap) and installed the ring afterwards: a
    second writer in between writes into the empty store, which stores nothing, and is
    acknowledged *)
 Theorem cache_init_flag_first_refuted :
-  exists tr, cache_acked_visible (run_trace (cexec_with true) tr cinit) = false.
+  exists tr, cache_acked_visible (run_trace (cexec_with true false) tr cinit) = false.
 Proof. exists lost_first_write_trace. exact (proj2 (proj2 flag_first_loses_write)). Qed.
 Print Assumptions cache_init_flag_first_refuted.
+
+(* the pinned release took no engine lock and did not look again: a write that has fetched
+   the ring when the monitor releases it (or one acknowledged after the idle check:
+   ProofsCacheInit.unlocked_free_loses_completed_write) is in the ring that is thrown away *)
+Theorem cache_free_unlocked_refuted :
+  exists tr, cache_acked_visible (run_trace (cexec_with false true) tr cinit) = false.
+Proof. exists lost_to_free_trace. exact (proj2 (proj2 unlocked_free_loses_write)). Qed.
+Print Assumptions cache_free_unlocked_refuted.
 
 (* ---- non-vacuity ---- *)
 (* two conflicting writers, second one pauses after validation: exactly one type survives *)
@@ -305,8 +322,21 @@ Example shard_nonvacuous :
   = RDone [1] [1; 1].
 Proof. vm_compute. reflexivity. Qed.
 
-(* three writers of a brand-new cache, all past the flag before any of them fetches the store *)
+(* three writers of a brand-new cache, all past the flag before any of them fetches the
+   store, and a monitor that finds the cache empty and must not release it any more *)
 Example cache_init_nonvacuous :
-  let s := run cexec [0;1;2;0;1;2;2;2;2;1;1;1;0;0;0]%nat [cwriter 1 11; cwriter 2 22; cwriter 3 33] cinit in
-  c_acked s = [33; 22; 11] /\ cvisible s = [33; 22; 11] /\ c_gen s = 1.
+  let s := run cexec [3;0;1;2;0;1;2;0;1;2;2;2;2;1;1;1;0;0;0;3]%nat
+               [cwriter 1 11; cwriter 2 22; cwriter 3 33; cmonitor 9] cinit in
+  c_acked s = [33; 22; 11] /\ cvisible s = [33; 22; 11] /\ c_gen s = 1 /\ c_fph s 9 = FDone.
+Proof. vm_compute. repeat split. Qed.
+
+(* a release that does happen (allocated and empty after a flush, nobody inside) next to a
+   writer: the monitor looks, writer 2 runs to its fetch, the release has to wait, writer 2
+   finishes, the release (tried again: a blocked step is a stutter) finds the cache non-empty; a second monitor after a second flush
+   does release, and writer 3 allocates a new ring *)
+Example cache_free_nonvacuous :
+  let s := run cexec [0;0;0;0;0;0; 4; 1; 2;2;2;2; 1; 2;2; 1; 4; 3;3; 5;5;5;5;5;5]%nat
+               [cwriter 1 11; [CIdle 9; CFree 9; CFree 9]; cwriter 2 22; cmonitor 8; [CFlush; CFlush]; cwriter 3 33] cinit in
+  c_acked s = [11; 22; 33] /\ cvisible s = [11; 22; 33] /\ c_files s = [11; 22] /\
+  c_fph s 9 = FDone /\ c_fph s 8 = FDone /\ c_gen s = 2 /\ c_store s = HRing 1.
 Proof. vm_compute. repeat split. Qed.
